@@ -3,7 +3,7 @@ import itertools, json, os, re
 from decimal import Decimal
 import vlib
 from checks.c09 import vlib_corpus
-from specgen import valid_spec
+from specgen import valid_spec, valid_sites_spec, valid_sites_list
 
 INT_FORMATS = [None, "int32", "int64", "int8", "int16", "uint8", "uint32", "uint64"]
 NUM_FORMATS = [None, "float", "double"]
@@ -126,6 +126,23 @@ def prepare(case):
             if ps:
                 vals[nm] = {p["name"]: leaf_vals(p["s"]) for p in ps}
         return {"op": case["op"], "in": {"desc": d, "vals": vals, "spec": spec, "mode": "client-mod", "cfg": case["in"].get("cfg", {})}}
+    if case["op"] == "valid.sites":
+        d = case["in"]["desc"]
+        sites = valid_sites_list(d)
+        # every site is probed on the boundary values of ALL sites' variants of the member (a value between two
+        # sites' limits tells the sites apart)
+        pool = {}
+        for st in sites:
+            for f in st["fields"]:
+                pool.setdefault(f["name"], [])
+                for v in leaf_vals(f["s"]):
+                    if v not in pool[f["name"]]:
+                        pool[f["name"]].append(v)
+        vals = [{f["name"]: pool[f["name"]] for f in st["fields"]} for st in sites]
+        i = {"desc": d, "spec": valid_sites_spec(d), "mode": d.get("mode", "client-mod"), "cfg": {}, "sites": sites, "vals": vals}
+        if case.get("_want_code"):
+            i["want"] = ["code"]
+        return {"op": case["op"], "in": i}
     return case
 
 
@@ -298,6 +315,103 @@ def e_cases(ctx):
     return out
 
 
+# ------------------------------------------------------------------------------------------------
+# site dimension: same-shaped inline objects that differ only in validation keywords
+SITE_MEMBERS = {
+    # member name -> (leaf description without the varied keywords, {keyword: pool of values})
+    "days": ({"k": "prim", "c": {"ty": "integer"}}, {"minimum": ["1", "0", "-3"], "maximum": ["365", "7", "100"], "exclusiveMinimum": ["0", "10"], "exclusiveMaximum": ["1000", "31"]}),
+    "level": ({"k": "prim", "c": {"ty": "integer", "format": "int32"}}, {"minimum": ["1", "2"], "maximum": ["9", "5"], "exclusiveMaximum": ["10", "6"]}),
+    "label": ({"k": "prim", "c": {"ty": "string"}}, {"minLength": [0, 2, 3], "maxLength": [32, 8, 3], "pattern": ["^a+$", "b", "^[0-9]{3}$"]}),
+    "note": ({"k": "prim", "c": {"ty": ["string", "null"]}}, {"minLength": [1, 2], "maxLength": [5, 3], "pattern": ["^a+$", "b"]}),
+    "ratio": ({"k": "prim", "c": {"ty": "number"}}, {"minimum": ["0.5", "1.5"], "maximum": ["2.5", "100.25"], "exclusiveMinimum": ["0", "0.25"], "exclusiveMaximum": ["10", "2.5"]}),
+    "tags": ({"k": "arrP", "c": {"ty": "array"}, "items": {"ty": "string"}}, {"minItems": [1, 2], "maxItems": [4, 2]}),
+    "nums": ({"k": "arrP", "c": {"ty": "array"}, "items": {"ty": "integer"}}, {"minItems": [1, 3], "maxItems": [5, 3]}),
+}
+SITE_KEYWORDS = ["minLength", "maxLength", "pattern", "minimum", "maximum", "exclusiveMinimum", "exclusiveMaximum", "minItems", "maxItems"]
+SITE_PLACES = {
+    "siblings": [("A", "p", "plain"), ("A", "q", "plain"), ("A", "r", "plain")],
+    "holders": [("A", "p", "plain"), ("B", "p", "plain"), ("C", "p", "plain")],
+    "items": [("A", "p", "array"), ("A", "q", "array"), ("A", "r", "plain")],
+    "mixed": [("A", "p", "plain"), ("B", "q", "array"), ("B", "r", "plain")],
+}
+
+
+def site_leaf(name, kws):
+    import copy
+    base, _ = SITE_MEMBERS[name]
+    s = copy.deepcopy(base)
+    for k, v in kws.items():
+        if v is not None:
+            s["c"][k] = v
+    return s
+
+
+def sites_desc(r, keywords, n=None, reqresp=False, what="limits"):
+    """2-3 inline objects of one shape; the members are the same, the sites differ only in the value (or the presence)
+    of the given validation keyword(s) — `what` = ann: only in an annotation (nothing may change), same: identical."""
+    # members that can carry the varied keywords, plus up to two bystanders with fixed constraints
+    carriers = []
+    for kw in keywords:
+        c = r.choice([m for m, (_, pools) in SITE_MEMBERS.items() if kw in pools])
+        carriers.append((c, kw))
+    names = {c for c, _ in carriers}
+    for m in r.sample(sorted(SITE_MEMBERS), r.randint(0, 2)):
+        names.add(m)
+    names = sorted(names)
+    fixed = {}
+    for m in names:
+        pools = SITE_MEMBERS[m][1]
+        fixed[m] = {k: r.choice(vs) for k, vs in pools.items() if r.random() < 0.4 and (m, k) not in carriers}
+    n = n or r.choice([2, 2, 3])
+    variants = []
+    for i in range(n):
+        kws = {m: dict(fixed[m]) for m in names}
+        if what == "limits":
+            for c, kw in carriers:
+                pool = SITE_MEMBERS[c][1][kw] + [None]           # present with different values, or absent at one site
+                kws[c][kw] = pool[(i + r.randrange(len(pool))) % len(pool)] if i else pool[0]
+        variants.append(kws)
+    if what == "limits":
+        # make sure at least two sites really differ
+        c, kw = carriers[0]
+        if variants[0][c].get(kw) == variants[1][c].get(kw):
+            pool = SITE_MEMBERS[c][1][kw]
+            variants[1][c][kw] = next(v for v in pool if v != variants[0][c].get(kw))
+    req = {m: r.random() < 0.5 for m in names}
+    order = list(range(n))
+    r.shuffle(order)
+    places = (SITE_PLACES[r.choice(sorted(SITE_PLACES))] if not reqresp else [("A", "p", "plain"), ("B", "p", "plain"), ("B", "q", "array")])[:n]
+    comps = {}
+    for (cn, prop, wrap), vi in zip(places, order):
+        f = {"name": prop, "wrap": wrap, "req": r.random() < 0.4,
+             "fields": [{"name": m, "req": req[m], "s": site_leaf(m, variants[vi][m])} for m in names]}
+        if what == "ann":
+            f["ann"] = {"description": ["first", "second", "third"][vi]}
+        comps.setdefault(cn, []).append(f)
+    usage = {cn: r.choice(["req", "both", "both"]) for cn in comps}
+    if reqresp:
+        usage = {"A": "req", "B": "resp"} if r.random() < 0.5 else {"A": "resp", "B": "req"}
+    return {"comps": [{"name": cn, "usage": usage[cn], "fields": fs} for cn, fs in sorted(comps.items())]}
+
+
+def site_cases(ctx):
+    r = ctx.rng
+    out = []
+    reps = 10 if ctx.quick else 60
+    add = lambda d: out.append({"op": "valid.sites", "in": {"desc": d}})
+    for kw in SITE_KEYWORDS:                                         # every keyword, one at a time
+        for i in range(reps):
+            add(sites_desc(r, [kw], reqresp=(i % 3 == 2)))
+    import itertools as it
+    pairs = list(it.combinations(SITE_KEYWORDS, 2))                  # … and in pairs
+    for a, b in pairs:
+        for i in range(2 if ctx.quick else 8):
+            add(sites_desc(r, [a, b], reqresp=r.random() < 0.25))
+    for i in range(30 if ctx.quick else 200):
+        add(sites_desc(r, [r.choice(SITE_KEYWORDS)], what=r.choice(["ann", "same"]), reqresp=r.random() < 0.25))
+    return out
+
+
 def run(ctx):
     proofs_ok, driver_ok = ctx.build_lean(["Oas3Model.Props.C16"])
     if proofs_ok:
@@ -306,7 +420,7 @@ def run(ctx):
             ctx.leanchecker("Oas3Model.Props.C16")
     ctx.prepare = prepare
     if driver_ok and ctx.build_harness(["k_valid"]):
-        allc = vlib_corpus(ctx) + k_cases(ctx) + e_cases(ctx)
+        allc = vlib_corpus(ctx) + k_cases(ctx) + e_cases(ctx) + site_cases(ctx)
         B = 400
         for i in range(0, len(allc), B):
             ctx.classify(ctx.evaluate(allc[i:i + B], tie="K+E"), tie="K+E")
@@ -327,5 +441,5 @@ def run(ctx):
             "restricted JSON-Schema semantics `satisfies` (minLength/maxLength in Unicode scalar values, pattern = unanchored search, numeric bounds exact) is the specification side, written in Lean (no jsonschema implementation is available offline)",
             "literal text (digit grouping, suffixes) is compared with the emitted text on every case but only its structured form (Lit) is reasoned about",
             "syn-based extraction of #[validate(..)] attributes, regex statics and the client method's first statement (harness/src/k_valid.rs)"],
-        rule="K: bounded-exhaustive constraint combinations (every subset of min/max/exclusive bounds x 8 integer + 3 float formats x nullable, strings: format x minLength x maxLength x pattern x required x param position, arrays: minItems x maxItems x item schemas) through the real extract_all_validation; E: random specs of the fragment (1-4 object schemas with scalar/array/ref/array-of-ref members incl. recursive ones, parameters in path/query/header, body as struct or array alias, response-only and bidirectional types) through the whole generator in-process; every leaf is judged on its boundary values (min-1, min, max, max+1, exclusive bounds, type MIN/MAX, multi-byte strings at the length limits, pattern (non)matches, lists at minItems/maxItems); non-trivial = at least one attribute predicted; distinct by input hash",
+        rule="K: bounded-exhaustive constraint combinations (every subset of min/max/exclusive bounds x 8 integer + 3 float formats x nullable, strings: format x minLength x maxLength x pattern x required x param position, arrays: minItems x maxItems x item schemas) through the real extract_all_validation; E: random specs of the fragment (1-4 object schemas with scalar/array/ref/array-of-ref members incl. recursive ones, parameters in path/query/header, body as struct or array alias, response-only and bidirectional types) through the whole generator in-process; E on sites (valid.sites): documents with 2-3 same-shaped inline objects (sibling properties, different holders, array items, request vs response holders) that differ in one of the nine validation keywords (each keyword, and every pair), only in an annotation, or not at all; the validators of the struct each site resolves to are judged against THAT site's own constraints on the boundary values of all variants; every leaf is judged on its boundary values (min-1, min, max, max+1, exclusive bounds, type MIN/MAX, multi-byte strings at the length limits, pattern (non)matches, lists at minItems/maxItems); non-trivial = at least one attribute predicted; distinct by input hash",
         assumptions=["schemas and members are given in BTreeMap order; names are ASCII identifiers that need no sanitising", "decimal bounds have at most 15 significant digits (f64 shortest representation = the decimal itself)"])
